@@ -7,6 +7,7 @@ import QModel.CriteriaIO
 import QModel.RunLoopIO
 import QModel.FilesIO
 import QModel.FBMCIO
+import QModel.ProtocolIO
 /-! Model driver: one operation per line on stdin, one canonical result line on stdout.
     Run with `lake env lean --run Driver.lean`. -/
 
@@ -23,6 +24,7 @@ def dispatch (line : String) : String :=
     else if cmd = "runloop" then RunLoop.handle ws
     else if cmd = "files" || cmd = "fcall" then Files.handle ws
     else if cmd = "fbgamma" || cmd = "fbprob" || cmd = "fbstep" then FB.handle ws
+    else if cmd = "p20" then Proto20.handle ws
     else "bad-op"
 
 partial def loop (h : IO.FS.Stream) (out : IO.FS.Stream) : IO Unit := do
